@@ -40,7 +40,7 @@ def gen_cases(tier, rng):
     for r in range(reps):
         for k in KINDS:
             cases.append({"cls": "object:" + k, "kind": k, "seed": int(rng.integers(1 << 30)), "cost": 6 if "Aggregate" in k or k in ("AbsSpectrum", "AbsSpectrumContainer", "RelaxationTensor") else 2})
-        for carrier in ("DFunction", "AbsSpectrum", "TwoDSpectrum", "Operator", "RateMatrix"):
+        for carrier in ("DFunction", "AbsSpectrum", "TwoDSpectrum", "Operator", "RateMatrix", "Evolution", "Evolution", "Evolution"):
             for shift in (range(4) if carrier == "AbsSpectrum" else range(1)):
                 cases.append({"cls": "data:" + carrier, "carrier": carrier, "seed": int(rng.integers(1 << 30)), "unit_shift": shift, "cost": 1})
     return cases
@@ -454,7 +454,21 @@ def run_data(case, ctx, qr, rng, work, out):
                             continue
                         n = int(rng.integers(2, 6))
                         y = rng.normal(size=(n, n)) + (1j * rng.normal(size=(n, n)) if (cplx and carrier == "Operator") else 0.0)
-                        if carrier == "Operator":
+                        if carrier == "Evolution":
+                            # a trajectory of Hermitian matrices with complex coherences (the text formats store one triangle)
+                            if not cplx:
+                                continue
+                            from quantarhei.qm.propagators.dmevolution import ReducedDensityMatrixEvolution
+                            n = 2 + (int(case["seed"]) + [".dat", ".txt", ".npy", ".npz", ".mat"].index(ext)) % 5
+                            Ntp = int(rng.integers(3, 9))
+                            tax = qr.TimeAxis(0.0, Ntp, 1.5)
+                            a_ = rng.normal(size=(Ntp, n, n)) + 1j * rng.normal(size=(Ntp, n, n))
+                            y = (a_ + numpy.conj(numpy.transpose(a_, (0, 2, 1)))) / 2
+                            r0_ = qr.ReducedDensityMatrix(data=y[0].copy())
+                            src = ReducedDensityMatrixEvolution(tax, r0_)
+                            src.data[:, :, :] = y
+                            dst = ReducedDensityMatrixEvolution(tax, qr.ReducedDensityMatrix(data=numpy.eye(n, dtype=complex) / n))
+                        elif carrier == "Operator":
                             src = qm.Operator(data=y.copy())
                             dst = qm.Operator(data=numpy.zeros((n, n), dtype=y.dtype))
                         else:
